@@ -34,7 +34,7 @@ SHAPE_AGNOSTIC = {"exp", "tanh", "logtanh", "leakyrelu", "sigmoid", "logit", "ca
 def gen_cases(tier, seed):
     rng = np.random.default_rng(seed + 33)
     cases = []
-    nrand = 2 if tier == "quick" else 40
+    nrand = 2 if tier == "quick" else 120
     for fam in zoo.ALL_FAMS:
         cfgs = zoo.configs([fam], tier, seed + 9, nrand)
         for ci, cfg in enumerate(cfgs):
@@ -49,11 +49,11 @@ def gen_cases(tier, seed):
                 # evaluation of a model that never saw a training pass (data-dependent initialisation still pending)
                 cases.append({"kind": "transform", "cfg": cfg, "policy": "fresh", "mode": "eval", "cold": True,
                               "seed": env.subseed(seed, "c13cold", fam, ci), "world": "f64", "cost": 2})
-    for i in range(40 if tier == "quick" else 1000):
+    for i in range(40 if tier == "quick" else 3000):
         for mode in ("eval", "train"):
             cases.append({"kind": "flow", "cfg": dzoo.sample_flow_cfg(rng), "mode": mode, "seed": env.subseed(seed, "c13f", i, mode),
                           "world": "f64", "cost": 4, "cold": bool(mode == "eval" and i % 4 == 3)})
-    for i in range(80 if tier == "quick" else 1500):
+    for i in range(80 if tier == "quick" else 4000):
         cases.append({"kind": "dist", "cfg": dzoo.sample_dist_cfg(rng), "mode": "eval" if i % 2 else "train",
                       "seed": env.subseed(seed, "c13d", i), "world": "f64", "cost": 1})
     # the repository's own tests as one more workload for the generic clauses (arguments / eval-mode state untouched)
